@@ -9,7 +9,7 @@ Sections
   bolfi   : (P) BolfiSample (and BOLFIRESample) from chains with distinct integers in every cell: chains x length x warm-up x parameter
             orders x cell numbering x memory layout.  Oracle: chain-by-chain concatenation of chain[warmup:]
             written with plain Python loops.
-  history : (H) every operation sequence up to depth d over {save pkl, save json, save csv, query} on Sample /
+  history : (H) every operation sequence up to depth d over {save pkl, save json, save csv, query; replace the weights (plain Sample)} on Sample /
             SmcSample / BolfiSample objects: all accessors agree with their value before the history after every
             step; every written file is read back with the stdlib parsers and must contain the same samples.
   values  : (P) text round trip of a float64 / int64 value alphabet (all decimal exponents, awkward mantissas,
@@ -626,6 +626,19 @@ def _run_history(obj, truth, ops, tmp):
         if os.path.exists(tmp.path('s.' + fmt)):
             os.remove(tmp.path('s.' + fmt))
     for i, op in enumerate(ops):
+        if op in ('reweight', 'reweight2'):
+            # the weights of a result object are replaced (the SMC sampler does this itself after constructing a
+            # population): from here on the object has to describe the stored samples under the NEW weights
+            n_ = len(truth['cols'][truth['names'][0]])
+            new_w = ([5.0, 1.0, 0.5, 2.0, 4.0] if op == 'reweight' else [0.25, 3.0, 1.0, 0.0, 2.0])[:n_]
+            obj.weights = np.array(new_w)
+            truth = dict(truth, w=new_w)
+            v = _check_sample(obj, truth['names'], truth['cols'], new_w, truth['disc'])
+            if v:
+                return ('after-reweighting:' + v[0], dict(v[1], step=i, op=op)), states
+            q0 = _query(obj, catch=False)
+            states.add(_state(obj))
+            continue
         if op != 'query':
             path = tmp.path('s.' + op)
             obj.save(path)
@@ -1024,6 +1037,13 @@ def _run(ctx):
             cases += [{'kind': 'hist', 'obj': o, 'ops': h} for o in sub for h in deep]
             ctx.count(history_objects_depth4=len(sub), histories_depth4_per_object=len(deep))
             ctx.extra['history_depth'] = '3 for all objects, 4 for %d of them' % len(sub)
+        # histories that also replace the weights of a plain Sample (accessors were evaluated before: anything an
+        # accessor remembers shows after the replacement)
+        rw_objs = [o for o in objs if o['cls'] == 'Sample' and o['n'] >= 2]
+        rw_hists = [list(h) for L in range(1, (3 if q else 4)) for h in itertools.product(OPS + ['reweight', 'reweight2'], repeat=L)
+                    if 'reweight' in h or 'reweight2' in h]
+        cases += [{'kind': 'hist', 'obj': o, 'ops': h} for o in rw_objs for h in rw_hists]
+        ctx.count(reweighting_objects=len(rw_objs), reweighting_histories_per_object=len(rw_hists))
         ctx.run_cases(run_hist, cases, 'history', sample_every=max(1, len(cases) // 3))
     if want('values'):
         cases = []
